@@ -33,17 +33,16 @@ def mantisMaxRounds := 8
 /-- `mantis_set_key` on a non-null schedule -/
 def mantisSetKey (o : MantisOps) (ks : MantisKey) (key : Option Bytes) (size rounds : Nat) (mode : Int) :
     Nat × MantisKey :=
-  match key with
-  | none => (0, ks)
-  | some k =>
-    if size ≠ 16 ∨ rounds < mantisMinRounds ∨ rounds > mantisMaxRounds then (0, ks)
-    else
+  if mantisSetKeyGuard false key.isNone size rounds mode then (0, ks)
+  else match key with
+    | none => (0, ks)
+    | some k =>
       let img := if mode = 1 then (o.setKeyEnc (image 128 k)).2 else (o.setKeyDec (image 128 k)).2
       (1, { MantisKey.ofImage img with rounds := rounds })
 
 /-- `mantis_set_tweak` -/
 def mantisSetTweak (o : MantisOps) (ks : MantisKey) (tweak : Option Bytes) (size : Nat) : Nat × MantisKey :=
-  if size ≠ 8 then (0, ks)
+  if mantisSetTweakGuard false tweak.isNone size then (0, ks)
   else match tweak with
     | some t => (1, { ks with tweak := o.unpack0 (image 128 (t.take 8)) })
     | none => (1, { ks with tweak := 0 })
